@@ -172,3 +172,33 @@ func HarnessC12E2E(a []int) {
 	verifObserve("len", len(got.Data))
 	verifCover("C12.e2e.end")
 }
+
+func init() {
+	verifHarnesses["HarnessC12OutSeq"] = HarnessC12OutSeq
+}
+
+// HarnessC12OutSeq: a = {0 tunnel | 1 router, n1, n2}: two events sent one after the other through
+// the same client: the second frame must not depend on the first (shared template state).
+func HarnessC12OutSeq(a []int) {
+	ev1, ev2 := c12Event(a[1]), c12Event(a[2])
+	sock := newVSock()
+	var lds [2]*cemi.LData
+	if a[0] == 0 {
+		gt := GroupTunnel{Tunnel: &Tunnel{sock: sock, config: TunnelConfig{UseTCP: true}, channel: nondetU8()}}
+		verifAssert("C12.out.sent", gt.Send(ev1) == nil && gt.Send(ev2) == nil && len(sock.log) == 2)
+		for i := range lds {
+			lds[i] = &sock.log[i].(*knxnet.TunnelReq).Payload.(*cemi.LDataReq).LData
+		}
+	} else {
+		gr := GroupRouter{Router: &Router{sock: sock, config: RouterConfig{RetainCount: 2}, retainer: list.New()}}
+		verifAssert("C12.out.sent", gr.Send(ev1) == nil)
+		verifQuiesce()
+		verifAssert("C12.out.sent", gr.Send(ev2) == nil && len(sock.log) == 2)
+		for i := range lds {
+			lds[i] = &sock.log[i].(*knxnet.RoutingInd).Payload.(*cemi.LDataInd).LData
+		}
+	}
+	c12CheckLData(lds[0], ev1, a[1])
+	c12CheckLData(lds[1], ev2, a[2])
+	verifCover("C12.outseq.end")
+}
